@@ -10,7 +10,7 @@ import (
 	"verif/harness/ref"
 )
 
-var c16Alphabet = []string{"'", "\"", "`", "\\", " ", "a", "u", "n", "/", "{", "[", "}", "]", ",", ":", "é", "✓", "😀", "�", "", "", "߿", "￿", "\U0010ffff"}
+var c16Alphabet = []string{"'", "\"", "`", "\\", " ", "a", "u", "n", "/", "{", "[", "}", "]", ",", ":", "é", "✓", "😀", "�", "", "", "߿", "￿", "\U0010ffff", "\n", "\r", "\x00"}
 
 func c16Len(c *Ctx) int { return tierN(c, 3, 4) }
 
@@ -199,7 +199,7 @@ func c16Exhaustive(c *Ctx, idx int) {
 	}
 }
 
-var c16Boundary = []rune{0x20, 0x21, 0x22, 0x23, 0x26, 0x27, 0x28, 0x2f, 0x5b, 0x5c, 0x5d, 0x60, 0x61, 0x7e, 0x7f, 0x80, 0x9f, 0xa0, 0xff, 0x100, 0x7ff, 0x800, 0xfff, 0x1000, 0xd7ff, 0xe000, 0xfffd, 0xfffe, 0xffff, 0x10000, 0x1f600, 0x10fffe, 0x10ffff, 0x2028, 0x2029, 0xfeff, 0x85}
+var c16Boundary = []rune{0x00, 0x01, 0x08, 0x09, 0x0a, 0x0b, 0x0c, 0x0d, 0x1b, 0x1f, 0x20, 0x21, 0x22, 0x23, 0x26, 0x27, 0x28, 0x2f, 0x5b, 0x5c, 0x5d, 0x60, 0x61, 0x7e, 0x7f, 0x80, 0x9f, 0xa0, 0xff, 0x100, 0x7ff, 0x800, 0xfff, 0x1000, 0xd7ff, 0xe000, 0xfffd, 0xfffe, 0xffff, 0x10000, 0x1f600, 0x10fffe, 0x10ffff, 0x2028, 0x2029, 0xfeff, 0x85}
 
 func c16Random(c *Ctx, idx int) {
 	r := c.Rand("")
@@ -304,7 +304,7 @@ func c16Value(r *gen.R, depth int) ref.V {
 func init() {
 	Register(&Property{
 		ID:            "C16",
-		Rule:          "every string of length <= 3 (quick) / <= 4 (thorough) over a 24-symbol hostile alphabet (quotes, backslash, backtick, brackets, separators, 2-/3-/4-byte code points, U+FFFD, U+007F, U+0080, U+07FF, U+FFFF, U+10FFFF) - exhaustive - plus every code point of a boundary set and seeded strings up to 200 code points with runs of escapes and delimiters: written as a raw string (both spellings of preserved backslashes), as a JSON literal (minimal, all-\\u with surrogate pairs, Go's encoder, \\/), nested in a literal container, and as a quoted identifier (field access and multi-select key) - each must decode to exactly that string / select exactly that member; before the valid spellings of each string, malformed neighbours (valid prefix + bad escape, truncated surrogate pair, unterminated literal) are compiled in the same process so that state left behind by a rejected literal would show; ladder stream: 20-70 keys/strings that are prefixes of one another, as quoted and bare identifiers, raw strings and JSON literals, evaluated shortest-first then longest-first in one process and together inside one expression; generated JSON values (30-40 digit numbers, exponents, nested containers, odd keys) in random legal layouts between backticks must evaluate to themselves; direct oracle: the generator knows the answer; non-trivial = every string/value",
+		Rule:          "every string of length <= 3 (quick) / <= 4 (thorough) over a 27-symbol hostile alphabet (LF, CR and NUL - written raw in raw strings, escaped in the JSON forms -, quotes, backslash, backtick, brackets, separators, 2-/3-/4-byte code points, U+FFFD, U+007F, U+0080, U+07FF, U+FFFF, U+10FFFF) - exhaustive - plus every code point of a boundary set and seeded strings up to 200 code points with runs of escapes and delimiters: written as a raw string (both spellings of preserved backslashes), as a JSON literal (minimal, all-\\u with surrogate pairs, Go's encoder, \\/), nested in a literal container, and as a quoted identifier (field access and multi-select key) - each must decode to exactly that string / select exactly that member; before the valid spellings of each string, malformed neighbours (valid prefix + bad escape, truncated surrogate pair, unterminated literal) are compiled in the same process so that state left behind by a rejected literal would show; ladder stream: 20-70 keys/strings that are prefixes of one another, as quoted and bare identifiers, raw strings and JSON literals, evaluated shortest-first then longest-first in one process and together inside one expression; generated JSON values (30-40 digit numbers, exponents, nested containers, odd keys) in random legal layouts between backticks must evaluate to themselves; direct oracle: the generator knows the answer; non-trivial = every string/value",
 		MinNontrivial: 5000,
 		Streams: []Stream{
 			{Name: "exhaustive", N: func(c *Ctx) int { return c16Count(c16Len(c)) }, Run: c16Exhaustive, Exhaustive: true},
